@@ -202,11 +202,15 @@ def parse_header(h):
             mm = re.match(r'(?:mut )?_(\d+): (.*)$', p)
             ps.append((int(mm.group(1)), mm.group(2)))
         return name, ps, ret, 'fn'
-    m = re.match(r'(const|static(?: mut)?) (.+?): (.+) = \{$', h)
+    m = re.match(r'(const|static(?: mut)?) (.+) = \{$', h)
     if not m:
         raise ParseError(h)
     kind = 'static' if m.group(1).startswith('static') else 'const'
-    return m.group(2), [], m.group(3), kind
+    body = m.group(2)
+    k = top_find(body, ': ', angle=True)
+    if k < 0:
+        raise ParseError(h)
+    return body[:k], [], body[k + 2:], kind
 
 
 def parse_func(h, body):
